@@ -33,7 +33,7 @@ ASSUME = [
 K = {"Buf": 12, "Hdr": 5, "Small": 3, "Big": 20, "LS": 4, "Trail": 2, "Banner": 2}
 SCRIPTS = '{"silent", "banner", "echo", "close"}'
 DOWNS = '{"up", "refuse", "closeatonce"}'
-AUTH = '{"badhello", "badkey", "replay", "window", "encmethod", "method", "uid", "ok", "nosession"}'
+AUTH = '{"badhello", "badext", "badkey", "replay", "window", "encmethod", "method", "uid", "ok", "nosession"}'
 HIDDEN = '{"short", "bogus", "replay", "method", "uid"}'
 STATEMENT_INV = "TypeOK TargetPrefix PeerOnlyTarget AcceptOnlyValid HangOnlyAuthenticated CloseOnlyIncomplete AllForwarded"
 JVM = {"JAVA_TOOL_OPTIONS": "-Xss64m -XX:ParallelGCThreads=2 -XX:TieredStopAtLevel=1"}   # short jobs: stay in the C1 compiler
@@ -55,7 +55,7 @@ def first_packet_size():
 
 
 # the quick model check keeps one representative of each branch of the decision tree
-AUTH_Q = '{"badkey", "method", "ok", "nosession"}'
+AUTH_Q = '{"badext", "badkey", "method", "ok", "nosession"}'
 HIDDEN_Q = '{"bogus", "uid"}'
 
 
@@ -94,7 +94,7 @@ def run(ctx):
     ctx.log("firstPacketSize of the code under test: %d" % buf)
     pool = concurrent.futures.ThreadPoolExecutor(max_workers=8)
     # the concrete exploration needs nothing from TLC: start it now
-    explore_f = pool.submit(lib.run_go, ctx, "server", "TestVerifC09Explore", {"VERIF_C09_BUF": buf}, 3000)
+    explore_f = pool.submit(lib.run_go, ctx, "server", "TestVerifC09(Explore|Concurrent)", {"VERIF_C09_BUF": buf}, 3000, None, False, "TestVerifC09Explore")
     jobs = {}
     neg_f = pool.submit(_negatives, ctx)
     if q:
@@ -155,6 +155,8 @@ def run(ctx):
     ex, rp = runs
     drift = ex["stats"].get("drift", 0) + rp["stats"].get("drift", 0)
     ctl = (ex["stats"].get("control_accepted", 0), ex["stats"].get("control_hung", 0))
+    ctx.log("concurrent presentations: %d rounds (N = 2..12 connections), served-per-round histogram %s"
+            % (ex["stats"].get("concurrent_rounds", 0), {k[len("concurrent_served_"):]: v for k, v in ex["stats"].items() if k.startswith("concurrent_served_")}))
     ctx.log("explore: %d scenarios; replay: %d behaviours x concretisations = %d runs; drift %d; controls accepted/hung %s"
             % (ex["stats"].get("explore_scenarios", 0), len(behaviours), rp["evaluations"], drift, ctl))
     if not ctx.violations:
@@ -164,6 +166,9 @@ def run(ctx):
             notes = [n for n in (rp.get("notes", []) + ex.get("notes", [])) if n.startswith("DRIFT")]
             raise lib.Inconclusive("model and code disagree on %d run(s) without any predicate of the statement failing (model drift, "
                                    "or a behavioural change the statement does not forbid):\n  %s" % (drift, "\n  ".join(notes[:3])))
+        if ex["stats"].get("concurrent_unsettled"):
+            raise lib.Inconclusive("concurrent presentations: %d round(s) did not settle within 10 s (machine overloaded?): %s"
+                                   % (ex["stats"]["concurrent_unsettled"], [n for n in ex.get("notes", []) if n.startswith("concurrent")][:2]))
         if ctl != (3, 3):
             raise lib.Inconclusive("control scenarios: %d of 3 authorised handshakes served, %d of 3 refused sessions left hanging - "
                                    "the rig cannot tell the outcomes apart" % ctl)
@@ -196,6 +201,17 @@ def run(ctx):
 
 
 def replay(ctx, path):
+    try:
+        kind = (json.load(open(path)).get("replay") or {}).get("kind")
+    except Exception:
+        kind = None
+    if kind == "concurrent":   # a schedule cannot be replayed from a file: the rounds are run again
+        res = lib.run_go(ctx, "server", "TestVerifC09Concurrent", env={"VERIF_C09_BUF": first_packet_size()}, extra_args=["-v"])
+        for v in res.get("violations", []):
+            print("REPLAY-RESULT key=%r what=%r" % (v["key"], v["what"]))
+        print("REPLAY-RESULT %d rounds, served-per-round %s" % (res["stats"].get("concurrent_rounds", 0),
+              {k: v for k, v in res["stats"].items() if k.startswith("concurrent_served_")}))
+        return 0
     res = lib.run_go(ctx, "server", "TestVerifC09Replay", env={"VERIF_REPLAY": os.path.abspath(path), "VERIF_C09_BUF": first_packet_size()},
                      extra_args=["-v"])
     print(open(os.path.join(res["_out_dir"], "go.out")).read())
